@@ -127,6 +127,13 @@ def classify(case, nodes, lib_nodes, r):
         exp13 = None
     if exp13 is not None and (exp13 == r["out"] or talref.canon(exp13) == talref.canon(r["out"])):
         return "known:content-text-keyword", {"expected": exp}
+    # ... or the unstripped first alternative of `exists:a | b` / `nocall:a | b`?
+    try:
+        exp_fa = tc.reference(case, nodes, lib_nodes, pinned=("first_alt_unstripped",))
+    except talref.OutOfScope:
+        exp_fa = None
+    if exp_fa is not None and (exp_fa == r["out"] or talref.canon(exp_fa) == talref.canon(r["out"])):
+        return "known:exists-nocall-first-alternative", {"expected": exp}
     return "mismatch", {"expected": exp}
 
 
